@@ -27,6 +27,9 @@ pub enum GenerateError {
 
     /// Object type has no known descriptor type mapping
     UnsupportedObjectType,
+
+    /// Struct templates can not be exported yet
+    UnsupportedStructTemplate,
 }
 
 /// Generate HLSL ast from ir module
@@ -413,7 +416,7 @@ fn generate_root_definition(
     let namespace = match decl {
         ir::RootDefinition::Struct(id) => module.struct_registry[id.0 as usize].namespace,
         ir::RootDefinition::StructTemplate(_) => {
-            todo!("RootDefinition::StructTemplate")
+            return Err(GenerateError::UnsupportedStructTemplate);
         }
         ir::RootDefinition::Enum(id) => module.enum_registry.get_enum_definition(*id).namespace,
         ir::RootDefinition::ConstantBuffer(id) => module.cbuffer_registry[id.0 as usize].namespace,
@@ -433,7 +436,7 @@ fn generate_root_definition(
             Vec::from([ast::RootDefinition::Struct(def)])
         }
         ir::RootDefinition::StructTemplate(_) => {
-            todo!("RootDefinition::StructTemplate")
+            return Err(GenerateError::UnsupportedStructTemplate);
         }
         ir::RootDefinition::Enum(id) => {
             let def = generate_enum(*id, context)?;
